@@ -16,3 +16,8 @@ def seeded_fraction(seed, name, k):
 def seeded_int(seed, name, k, lo, hi):
     h = hashlib.sha256(('%s|%s|%s|int' % (seed, name, k)).encode()).digest()
     return lo + int.from_bytes(h[:4], 'big') % (hi - lo + 1)
+
+
+# fixed rational unit phases for complex entries of known modulus (|c + i s| == 1 exactly)
+PHASES = [(Fraction(1), Fraction(0)), (Fraction(3, 5), Fraction(4, 5)), (Fraction(-4, 5), Fraction(3, 5)), (Fraction(0), Fraction(1)),
+          (Fraction(5, 13), Fraction(-12, 13)), (Fraction(-1), Fraction(0)), (Fraction(-3, 5), Fraction(-4, 5)), (Fraction(12, 13), Fraction(5, 13))]
